@@ -36,15 +36,18 @@ def w_density(case):
     exp_pw = ref.pointwise(model, params, ybar, y)
     exp_tot = float(np.sum(exp_pw))
 
+    # The same float arrays are handed to every call (no copies): evaluations must
+    # neither modify them nor depend on what was evaluated before.
+    a_par, a_ybar, a_y, a_S = params.copy(), ybar.copy(), y.copy(), S.copy()
     # total
-    got_tot = em.compute_log_likelihood(list(params), ybar.copy(), y.copy())
+    got_tot = em.compute_log_likelihood(a_par, a_ybar, a_y)
     n_tr += 1
     if not tol.close(got_tot, exp_tot):
         viol.append({
             'sub': 'total', 'message': 'compute_log_likelihood differs from the '
             'documented log-density', 'expected': exp_tot, 'observed': got_tot})
     # pointwise
-    got_pw = np.asarray(em.compute_pointwise_ll(list(params), ybar.copy(), y.copy()))
+    got_pw = np.asarray(em.compute_pointwise_ll(a_par, a_ybar, a_y))
     n_tr += 1
     if got_pw.shape != (len(ybar),) or not tol.allclose(got_pw, exp_pw):
         viol.append({
@@ -56,8 +59,21 @@ def w_density(case):
             'sub': 'sum', 'message': 'pointwise values do not sum to the total',
             'expected': got_tot, 'observed': float(np.sum(got_pw))})
     # sensitivities
-    res = em.compute_sensitivities(list(params), ybar.copy(), S.copy(), y.copy())
+    res = em.compute_sensitivities(a_par, a_ybar, a_S, a_y)
     n_tr += 1
+    again = em.compute_log_likelihood(a_par, a_ybar, a_y)
+    n_tr += 1
+    if not (np.array_equal(a_par, params) and np.array_equal(a_ybar, ybar)
+            and np.array_equal(a_y, y) and np.array_equal(a_S, S)):
+        viol.append({
+            'sub': 'inputs', 'message': 'an evaluation modified the arrays passed '
+            'in', 'expected': [params, ybar, y], 'observed': [a_par, a_ybar, a_y],
+            'behaviour': 'input_mutation'})
+    if not tol.close(again, got_tot):
+        viol.append({
+            'sub': 'repeat', 'message': 'log-likelihood differs when evaluated '
+            'again after compute_sensitivities on the same arrays',
+            'expected': got_tot, 'observed': again, 'behaviour': 'repeat'})
     score, sens = res
     sens = np.asarray(sens, dtype=float)
     n_expected = case['p'] + ref.N_PARAMS[model]
